@@ -185,6 +185,21 @@ def flow_sensitivity(wn, cols, a, b, full, parts):
 def compare(c, full, parts, pauses, hyd, wit):
     import numpy as np
     import pandas as pd
+    import math
+    # a tank that turns over its whole level range several times within ONE hydraulic step (a 3 m tank on a 0.3 m3/s main: 4 cm per
+    # second) makes every event instant, rounded to whole seconds, a chaotic function of the 1e-6 solver noise: nothing can be compared
+    wn_ = wit['wn']
+    for tn_, tk_ in wn_.tanks():
+        span_ = max(tk_.max_level - tk_.min_level, 1e-6)
+        if tk_.vol_curve is None:
+            area_ = math.pi * tk_.diameter ** 2 / 4.0
+        else:
+            pts_ = tk_.vol_curve.points
+            area_ = max((pts_[-1][1] - pts_[0][1]) / max(pts_[-1][0] - pts_[0][0], 1e-9), 1e-9)
+        qmax_ = float(np.abs(full.node['demand'][tn_].values).max())
+        if qmax_ * hyd / area_ > 4.0 * span_:
+            c.inconclusive('tank_turns_over_its_range_several_times_per_step')
+            return
     idx_full = list(full.node['head'].index)
     idx_parts = [list(p.node['head'].index) for p in parts]
     # continuation rules
